@@ -67,7 +67,7 @@ def forms(wmax):
         add("a>=b", [T, T], lambda m, a: a[0] >= a[1], lambda x, y: x >= y, BOOL)
         add("a.Equals(b)", [T, T], lambda m, a: a[0].Equals(a[1]), lambda x, y: x == y, BOOL)
         add("a.NotEquals(b)", [T, T], lambda m, a: a[0].NotEquals(a[1]), lambda x, y: x != y, BOOL)
-        for c in ([3, -2, 0, 2 ** 70] if T == INT else [3, -2, Fraction(1, 2), 0.5, 0]):
+        for c in ([3, -2, 0, 2 ** 70] if T == INT else [3, -2, Fraction(1, 2), 0.5, 0, 0.1, 2.675, 1e-05]):
             cv = Fraction(c) if T == REAL else c
             add("a+%r" % c, [T], lambda m, a, c=c: a[0] + c, lambda x, cv=cv: x + cv, T)
             add("%r+a" % c, [T], lambda m, a, c=c: c + a[0], lambda x, cv=cv: cv + x, T)
